@@ -5,12 +5,18 @@
    c09 rel <A> <B>       generated relative_associativity
    c09 num|hex|asn|ipv4|str|chr|fstr|fpart|kw <hex of UTF-8 source>
    c09 prefix4 a b c d len
+   c09 la <gen|old> <sym>*   look-ahead / lexer-mode model of atom, block, record, separated,
+                         f_string on a symbol list: `{ } ( ) [ ] , : ; = . let id lit f" op`,
+                         `T<k>` (f-string text up to a hole), `E<k>` (text up to the closing quote);
+                         `gen` = generated look-ahead facts, `old` = no stop token
 -/
 import Driver.Util
 import RotoV.Model.Pratt
 import RotoV.Model.Literal
 import RotoV.Model.FString
 import RotoV.Generated.Precedence
+import RotoV.Model.LookAhead
+import RotoV.Generated.LookAhead
 
 namespace Driver.C09
 open RotoV RotoV.Pratt RotoV.Literal RotoV.FString
@@ -81,8 +87,58 @@ def showParts (ps : List Part) : String :=
     | .text s => "T" ++ hexStr s
     | .hole s => "H" ++ hexStr s)
 
+def readSym (w : String) : Option LookAhead.Sym :=
+  match w with
+  | "{" => some (.n .lcurly) | "}" => some (.n .rcurly)
+  | "(" => some (.n .lparen) | ")" => some (.n .rparen)
+  | "[" => some (.n .lsquare) | "]" => some (.n .rsquare)
+  | "," => some (.n .comma) | ":" => some (.n .colon) | ";" => some (.n .semi)
+  | "=" => some (.n .eq) | "." => some (.n .period) | "let" => some (.n .kwLet)
+  | "id" => some (.n .ident) | "lit" => some (.n .lit) | "f\"" => some (.n .fstart)
+  | "op" => some (.n .binop)
+  | _ =>
+    if w.startsWith "T" then (w.drop 1).toNat?.map LookAhead.Sym.ftext
+    else if w.startsWith "E" then (w.drop 1).toNat?.map LookAhead.Sym.fend
+    else none
+
+mutual
+partial def laSexp : LookAhead.T → String
+  | .id => "id" | .lit => "lit" | .unit => "unit"
+  | .paren e => laSexp e
+  | .bin l r => s!"(bin {laSexp l} {laSexp r})"
+  | .field e => s!"(field {laSexp e})"
+  | .call f a => s!"(call {laSexp f}{laSeq a})"
+  | .fstr ps => s!"(fstr{laSeq ps})"
+  | .list xs => s!"(list{laSeq xs})"
+  | .recd fs => s!"(rec{laSeq fs})"
+  | .trec p fs => s!"(trec {laSexp p}{laSeq fs})"
+  | .block items => s!"(block{laSeq items})"
+  | _ => "?"
+/-- a sequence (items, f-string parts, block items), each element preceded by a blank -/
+partial def laSeq : LookAhead.T → String
+  | .cons h t => s!" {laSexp h}{laSeq t}"
+  | .part k e rest => (if k == 0 then "" else " (text)") ++ s!" (hole {laSexp e}){laSeq rest}"
+  | .fin k => if k == 0 then "" else " (text)"
+  | .slet e rest => s!" (let {laSexp e}){laSeq rest}"
+  | .stmt e rest => s!" (stmt {laSexp e}){laSeq rest}"
+  | .last e => s!" (last {laSexp e})"
+  | _ => ""
+end
+
 def handle (args : List String) : String :=
   match args with
+  | "la" :: mode :: syms =>
+    match syms.mapM readSym with
+    | none => "bad-op"
+    | some src =>
+      let cfg : LookAhead.Cfg :=
+        if mode == "old" then LookAhead.cfgUnguarded
+        else ⟨RotoV.Gen.LookAhead.peekStops, RotoV.Gen.LookAhead.recordWindows⟩
+      match LookAhead.parseAll cfg src with
+      | .ok t _ => s!"ok {laSexp t}"
+      | .err => "err"
+      | .panic => "panic"
+      | .fuel => "fuel"
   | "pratt" :: toks =>
     match toks.mapM readTok with
     | some ts => showPRes (parseExpr rel ts)
